@@ -237,12 +237,17 @@ def run(ctx):
     nun = 0
     pairs = [((c,), p) for c in KINDS for p in (("v1",), ("v2",), ("both",))] + [(("DirectedEdge", "UnDirectedEdge"), ("v1", "v2")), (("SymTwo", "DirectedEdge"), ("v2", "v2"))]
     pairs = [(c_, p_, "Vertex") for c_, p_ in pairs] + [(("DirectedEdge",), ("v1",), "EqVert"), (("UnDirectedEdge",), ("v2",), "EqVert"), (("SymTwo", "DirectedEdge"), ("v2", "v2"), "EqVert")]
+    # vertices of a user class that can be iterated (a cluster yielding its member c): still one vertex each
+    pairs += [(("DirectedEdge",), ("v1",), "ClusterVert"), (("UnDirectedEdge", "DirectedEdge"), ("v2", "v1"), "ClusterVert")]
     for classes, poss, vcls in pairs:
         def thunk():
             a = h.vertex("a", vcls)
             selfloop = poss[0] == "both"
             b = a if selfloop else h.vertex("b", vcls)
             c = h.vertex("c", vcls)
+            if vcls == "ClusterVert":
+                b.fields["members"] = Seq([c], "tuple")
+                a.fields["members"] = Seq([], "tuple")
             ls = []
             if getattr(h, "aux", None):
                 keep = h.new("DirectedEdge", "K", a, c)
@@ -281,7 +286,7 @@ def run(ctx):
                         ok, why = False, f"after unlink(a, b): find_links{key} -> {r!r}"
                 res.ob(ok, sig=("unlink", classes, poss, tuple(choices), vcls))
                 if not ok:
-                    res.violation("UNLINK-EMPTY", "edgegraph.builder.explicit.unlink", f"links={'+'.join(KINDS[c] for c in classes)},a_is={'+'.join(poss)}" + (",vertices-compare-equal" if vcls != "Vertex" else ""), why)
+                    res.violation("UNLINK-EMPTY", "edgegraph.builder.explicit.unlink", f"links={'+'.join(KINDS[c] for c in classes)},a_is={'+'.join(poss)}" + (",vertices-compare-equal" if vcls == "EqVert" else (",vertices-can-be-iterated" if vcls == "ClusterVert" else "")), why)
         except Unknown as u:
             res.undecide(f"unlink post-state {classes},{poss}: {u}")
     res.rule("UNLINK-EMPTY", nun)
